@@ -1,12 +1,20 @@
 #!/usr/bin/env python3
-"""Regenerates harness/h_store/c19_specs.json: for every instruction carrying an
-`#[access_control]` attribute whose accounts struct has no token accounts, everything the native
-harness needs to SYNTHESISE a valid account set and call the real entrypoint:
-discriminator and zero-valued borsh arguments (IDL), the account list with kinds (source struct
-types), owners, discriminators and sizes of typed accounts (IDL layouts), `has_one` targets with
-their byte offsets, PDA seeds (IDL), and the roles the attribute accepts (Gen.Access extraction).
-Instructions it cannot describe are listed under "skipped" with the reason (not an error: the
-harness reports coverage).  Used by C19.
+"""Regenerates harness/h_store/c19_specs.json: what the native harness needs to SYNTHESISE a valid
+account set for an instruction and call the real entrypoint.
+
+Covered instructions:
+  * every instruction with an `#[access_control]` attribute (or listed in the reviewed expectation
+    translator/c19_expected_roles.json) — role test;
+  * every attribute-less instruction whose accounts struct ties a writable account to a signer
+    (`has_one = <signer>`, signer key in the seeds) — owner test.
+
+Per instruction: discriminator and zero-valued borsh arguments (IDL); the account list with kinds
+(signer / program / plain / zero-copy / borsh / SPL token account / SPL mint), owners,
+discriminators, sizes; `has_one` targets with byte offsets (zero-copy layouts from the IDL, borsh
+offsets for fixed-size prefixes); PDA seeds (IDL, else parsed from the `#[account(seeds = …)]`
+attribute); token constraints (`token::mint/authority`, `associated_token::*`, `mint::*`).
+Instructions it cannot describe are listed under "skipped" with the reason (coverage is reported
+by the harness; an undescribed or unreached instruction is never counted as passing).  Used by C19.
 """
 import json
 import os
@@ -20,6 +28,7 @@ IDLS = {"store": "gmsol_store", "treasury": "gmsol_treasury", "timelock": "gmsol
         "liquidity_provider": "gmsol_liquidity_provider", "competition": "gmsol_competition"}
 PRIM = {"u8": 1, "i8": 1, "bool": 1, "u16": 2, "i16": 2, "u32": 4, "i32": 4, "u64": 8, "i64": 8, "u128": 16, "i128": 16, "f32": 4, "f64": 8}
 OUT = "/verif/harness/h_store/c19_specs.json"
+TOKEN_PROGRAM = "TokenkegQfeZyiNwAJbNbGKPFXCWuBvf9Ss623VQ5DA"
 
 
 class Unsupported(Exception):
@@ -59,6 +68,21 @@ class Idl:
         self.cache[name] = ((off + align - 1) // align * align, align, fields)
         return self.cache[name]
 
+    def borsh_fields(self, name):
+        """{field: offset} for the fixed-size prefix of a borsh struct"""
+        t = self.types.get(name)
+        if t is None or t["type"]["kind"] != "struct": return {}
+        off, out = 0, {}
+        for f in t["type"].get("fields", []):
+            ty = f["type"]
+            if isinstance(ty, str) and (ty in PRIM or ty == "pubkey"):
+                out[f["name"]] = off; off += PRIM.get(ty, 32)
+            elif isinstance(ty, dict) and "array" in ty and isinstance(ty["array"][0], str) and ty["array"][0] in PRIM:
+                out[f["name"]] = off; off += PRIM[ty["array"][0]] * ty["array"][1]
+            else:
+                break
+        return out
+
     def zero(self, ty):
         """borsh encoding of the zero / empty value"""
         if isinstance(ty, str):
@@ -81,21 +105,74 @@ class Idl:
         raise Unsupported(f"zero of {ty}")
 
 
+class Consts:
+    """byte-string and small integer constants of all programs, by (last) name; `T::SEED` by T"""
+    def __init__(self, all_files):
+        self.bytes, self.ints, self.seed, self.strs = {}, {}, {}, {}
+        for s in all_files:
+            whole = s.text_of(0, len(s.toks))
+            for mm in re.finditer(r"\bconst (\w+) : [^=;]+ = ([^;]+) ;", whole):
+                name, txt = mm.group(1), mm.group(2)
+                m = re.fullmatch(r'b"((?:[^"\\]|\\.)*)"', txt)
+                if m and name != "SEED": self.bytes.setdefault(name, m.group(1).encode())
+                m3 = re.fullmatch(r'"((?:[^"\\]|\\.)*)"', txt)
+                if m3: self.strs.setdefault(name, m3.group(1).encode())
+                m2 = re.fullmatch(r"([0-9_]+)(usize|u8|u16|u32|u64)?", txt)
+                if m2: self.ints.setdefault(name, int(m2.group(1).replace("_", "")))
+            for h, lo, hi in s.impls():
+                m = re.search(r"\bSeed for (\w+)", h)
+                if m:
+                    t = s.text_of(lo, hi)
+                    v = re.search(r'const SEED : & \'static \[ u8 \] = b"((?:[^"\\]|\\.)*)"', t)
+                    if v: self.seed[m.group(1)] = v.group(1).encode()
+                    v2 = re.search(r"const SEED : & 'static \[ u8 \] = (\w+) :: SEED", t)
+                    if v2: self.seed[m.group(1)] = ("alias", v2.group(1))
+
+    def seed_of(self, t):
+        v = self.seed.get(t)
+        if isinstance(v, tuple): return self.seed_of(v[1])
+        return v
+
+
+def attr_items(s, ranges):
+    """[(key, value_text)] of the `#[account(...)]` attributes given as token ranges"""
+    items = []
+    for lo, hi in ranges:
+        if not s.is_id(lo, "account") or not s.is_p(lo + 1, "("): continue
+        for a, b in s.split_commas(lo + 2, s.match[lo + 1]):
+            eq = None
+            depth = 0
+            for k in range(a, b):
+                t = s.toks[k]
+                if t.kind == "p" and t.text in ("(", "[", "{"): depth += 1
+                if t.kind == "p" and t.text in (")", "]", "}"): depth -= 1
+                if depth == 0 and s.is_p(k, "=") and eq is None: eq = k
+            if eq is None: items.append((s.text_of(a, b), "", (a, b)))
+            else: items.append((s.text_of(a, eq), s.text_of(eq + 1, b), (eq + 1, b)))
+    return items
+
+
 def main():
     rows = G.main()
     attr = {(r["program"], r["name"]): r["attr"] for r in rows}
+    rowinfo = {(r["program"], r["name"]): r for r in rows}
     idls = {p: Idl(n) for p, n in IDLS.items()}
     owner_of = {}
     for p, idl in idls.items():
         for a in idl.accounts: owner_of.setdefault(a, p)
-    specs, skipped = [], []
     try:
         expected = json.load(open(os.path.join(os.path.dirname(os.path.abspath(__file__)), "c19_expected_roles.json")))
     except (OSError, ValueError) as e:
         die(f"cannot read c19_expected_roles.json: {e}")
+    all_files = {}
+    for pname, root, modname in G.PROGRAMS:
+        all_files[pname] = [Src(f) for f in G.rs_files(root)]
+    consts = Consts([s for fs in all_files.values() for s in fs] + [Src(f) for f in G.rs_files("programs/callback")]
+                    + [Src("crates/utils/src/role.rs")])
+    specs, skipped = [], []
     for pname, root, modname in G.PROGRAMS:
         lib = Src(f"{root}/src/lib.rs")
-        files = [Src(f) for f in G.rs_files(root)]
+        files = all_files[pname]
         structs = {}
         for s in files:
             for i, t in enumerate(s.toks):
@@ -107,32 +184,37 @@ def main():
         iix = {i["name"]: i for i in idl.d["instructions"]}
         for f in lib.fns(*mod):
             name = f["name"]
-            # the REVIEWED expectation (translator/c19_expected_roles.json) decides which instructions are
-            # exercised and with which required roles — NOT the attribute currently in the source, so that a
-            # dropped or changed attribute is found by the harness oracle with a concrete call
+            # the REVIEWED expectation decides which instructions are exercised and what is required — NOT the
+            # attribute / constraint currently in the source, so that a dropped guard is found by the oracle
             exp = expected.get(f"{pname}::{name}")
-            roles, pinned = (exp["roles"], exp["reachable"]) if exp else (None, False)
-            if roles is None:
-                roles = attr.get((pname, name))
-                if roles is None: continue
+            ri = rowinfo[(pname, name)]
+            if exp:
+                roles, pinned, owner_sig = exp.get("roles", []), exp.get("reachable", False), exp.get("owner")
+            else:
+                roles, pinned = attr.get((pname, name)), False
+                owner_sig = None
+                if roles is None:
+                    # attribute-less: owner test when a writable account is tied to a signer
+                    if not (ri["owner_bound"] and ri["writable"] and ri["signers"]): continue
+                    roles = []
+                    owner_sig = "?"
             try:
                 if name not in iix: raise Unsupported("not in the IDL")
                 ii = iix[name]
                 ctx = re.search(r"Context <(?: '\w+ ,)* (\w+)", lib.text_of(*f["params"])).group(1)
                 s, si = structs[ctx][0]
-                # field attributes
                 j = si + 2
                 if s.is_p(j, "<"): j = s.skip_generics(j)
                 lo, hi = j + 1, s.match[j]
                 fattrs, cur, i = {}, [], lo
                 while i < hi:
                     if s.toks[i].kind == "doc": i += 1; continue
-                    if s.is_p(i, "#"): cur.append(s.text_of(i + 2, s.match[i + 1])); i = s.match[i + 1] + 1; continue
+                    if s.is_p(i, "#"): cur.append((i + 2, s.match[i + 1])); i = s.match[i + 1] + 1; continue
                     if s.is_id(i, "pub"):
                         i += 1
                         if s.is_p(i, "("): i = s.match[i] + 1
                     fname = s.toks[i].text
-                    fattrs[fname] = " ".join(a for a in cur if a.startswith("account"))
+                    fattrs[fname] = attr_items(s, cur)
                     cur = []
                     depth = 0
                     while i < hi:
@@ -148,50 +230,95 @@ def main():
                 ftypes = {fn: re.sub(r"'info ,? ?", "", ty).replace(" ", "") for fn, ty, _ in s.struct_fields(ctx)}
                 iaccs = [a for a in ii["accounts"]]
                 if [a["name"] for a in iaccs] == list(ftypes) + ["event_authority", "program"]:
-                    # `#[event_cpi]` appends the event authority PDA and the program itself
                     ftypes["event_authority"] = "UncheckedAccount"
                     ftypes["program"] = "Program<Self>"
                     iaccs[-1] = dict(iaccs[-1], address=idl.address)
                 if [a["name"] for a in iaccs] != list(ftypes): raise Unsupported("IDL account list differs from the source struct")
+                argn = {x["name"]: x for x in ii["args"]}
+                signers = [n for n, t in ftypes.items() if t.startswith("Signer")]
                 accounts = []
                 for a in iaccs:
                     ty = ftypes[a["name"]]
                     opt = ty.startswith("Option<")
                     core = re.sub(r"^Option<(.*)>$", r"\1", ty); core = re.sub(r"^Box<(.*)>$", r"\1", core)
-                    at = fattrs.get(a["name"], "")
+                    items = fattrs.get(a["name"], [])
+                    kv = {}
+                    for k, v, rng in items: kv.setdefault(k, []).append((v, rng))
                     acc = dict(name=a["name"], signer=bool(a.get("signer")), writable=bool(a.get("writable")), optional=opt)
-                    if "TokenAccount" in core or "Mint>" in core or "token_interface" in core: raise Unsupported("token account")
+                    # created or resized by Anchor DURING account validation (before any guard / later constraint)
+                    acc["init"] = "init" in kv or "init_if_needed" in kv or "realloc" in kv
+                    has_one = [re.sub(r" @ .*$", "", v) for v, _ in kv.get("has_one", [])]
+                    custom = [v for v, _ in kv.get("constraint", [])]
+                    eqs, rest = [], []
+                    for c in custom:
+                        mm = re.fullmatch(rf"{a['name']} (?:\. load \( \) \? )?\. (\w+) == (\w+) \. key \( \)(?: @ .*)?", c)
+                        if mm and mm.group(2) in ftypes: eqs.append((mm.group(1), mm.group(2)))
+                        else: rest.append(c)
+                    if rest: acc["constraint"] = True
+                    is_tok = re.search(r"(Account|InterfaceAccount)<(?:token_interface::)?TokenAccount>", core)
+                    is_mint = re.search(r"(Account|InterfaceAccount)<(?:token_interface::)?Mint>", core)
                     if core.startswith("Signer"): acc["kind"] = "signer"
                     elif core.startswith("Program<") or core.startswith("Interface<"):
                         acc["kind"] = "program"; acc["address"] = a.get("address")
+                        if "TokenInterface" in core or core.startswith("Program<Token"): acc["address"] = acc["address"] or TOKEN_PROGRAM
                         if not acc["address"] and not opt: raise Unsupported(f"program {a['name']} without address")
+                    elif is_tok or is_mint:
+                        acc["kind"] = "token" if is_tok else "mint"
+                        acc["owner"] = TOKEN_PROGRAM
+                        def ref(key):
+                            v = kv.get(key)
+                            if not v: return None
+                            t = v[0][0]
+                            if re.fullmatch(r"\w+", t) and t in ftypes: return t
+                            raise Unsupported(f"{key} = {t}")
+                        if is_tok:
+                            acc["mint"] = ref("token :: mint") or ref("associated_token :: mint")
+                            acc["authority"] = ref("token :: authority") or ref("associated_token :: authority")
+                            acc["ata"] = "associated_token :: mint" in kv
+                            for fld, tgt in eqs:
+                                if fld == "mint": acc["mint"] = acc["mint"] or tgt
+                                elif fld == "owner": acc["authority"] = acc["authority"] or tgt
+                                else: acc["constraint"] = True
+                        else:
+                            acc["authority"] = ref("mint :: authority")
+                            d = kv.get("mint :: decimals")
+                            if d:
+                                t = d[0][0]
+                                last = t.split(" :: ")[-1]
+                                if re.fullmatch(r"\d+", t): acc["decimals"] = int(t)
+                                elif last in consts.ints: acc["decimals"] = consts.ints[last]
+                                else: raise Unsupported(f"mint::decimals = {t}")
                     elif core.startswith("UncheckedAccount") or core.startswith("SystemAccount") or core.startswith("AccountInfo"):
                         acc["kind"] = "plain"
                         if a.get("address"): acc["address"] = a["address"]
                     else:
-                        m = re.match(r"(AccountLoader|Account)<(\w+)>", core)
+                        m = re.match(r"(AccountLoader|Account|InterfaceAccount)<(\w+)>", core)
                         if not m: raise Unsupported(f"account type {core}")
                         tname = m.group(2)
-                        op = owner_of.get(tname)
+                        # the owning program is the one whose SOURCE defines the struct (foreign IDLs re-list imported store accounts)
+                        op = pname if (tname in structs and tname in idls[pname].accounts) else owner_of.get(tname)
                         if op is None: raise Unsupported(f"type {tname} not in any IDL")
                         oidl = idls[op]
                         acc["kind"] = "store" if tname == "Store" else ("zc" if m.group(1) == "AccountLoader" else "borsh")
                         acc["type"] = tname
                         acc["owner"] = oidl.address
                         acc["disc"] = oidl.accounts[tname]["discriminator"]
-                        acc["init"] = bool(re.search(r"\binit\b|\binit_if_needed\b", at))
+                        acc["has_one"] = []
                         if acc["kind"] in ("zc", "store"):
                             size, _, fields = oidl.struct(tname)
                             acc["size"] = size
-                            acc["has_one"] = []
-                            for h in re.findall(r"has_one = (\w+)", at):
-                                if h not in fields: raise Unsupported(f"has_one = {h}: no such field in {tname}")
-                                acc["has_one"].append([h, fields[h][0]])
-                            if "bump" in fields: acc["bump_offset"] = fields["bump"][0]
-                            if re.search(r"\bconstraint =", at): acc["constraint"] = True
+                            offs = {k: v[0] for k, v in fields.items()}
                         else:
-                            acc["size"] = 512
-                            if re.search(r"has_one =|\bconstraint =", at): acc["constraint"] = True
+                            acc["size"] = 1024
+                            offs = oidl.borsh_fields(tname)
+                        for fld, tgt in eqs:
+                            if fld in offs: acc["has_one"].append([tgt, offs[fld]])
+                            else: acc["constraint"] = True
+                        for h in has_one:
+                            if h not in offs: raise Unsupported(f"has_one = {h}: offset of that field in {tname} unknown")
+                            acc["has_one"].append([h, offs[h]])
+                        if "bump" in offs: acc["bump_offset"] = offs["bump"]
+                    # ---- PDA
                     if a.get("pda"):
                         seeds = []
                         for sd in a["pda"]["seeds"]:
@@ -200,7 +327,7 @@ def main():
                                 if "." in sd["path"]: raise Unsupported(f"pda seed from account data {sd['path']}")
                                 seeds.append(dict(account=sd["path"]))
                             elif sd["kind"] == "arg":
-                                arg = [x for x in ii["args"] if x["name"] == sd["path"].split(".")[0]]
+                                arg = [x for x in ii["args"] if x["name"].lstrip("_") == sd["path"].split(".")[0].lstrip("_")]
                                 if not arg or "." in sd["path"]: raise Unsupported(f"pda seed from arg {sd['path']}")
                                 z = idl.zero(arg[0]["type"])
                                 if arg[0]["type"] in ("string", "bytes"): z = b""
@@ -212,11 +339,71 @@ def main():
                             elif prog.get("kind") == "account" and "." not in prog["path"]: prog = dict(account=prog["path"])
                             else: raise Unsupported("pda program")
                         acc["pda"] = dict(seeds=seeds, program=prog)
+                    elif "seeds" in kv and not acc.get("ata"):
+                        # the IDL has no seeds for this account: parse the attribute
+                        v, (lo2, hi2) = kv["seeds"][0]
+                        if not s.is_p(lo2, "["): raise Unsupported(f"seeds = {v[:40]}")
+                        seeds = []
+                        for a2, b2 in s.split_commas(lo2 + 1, s.match[lo2]):
+                            t = s.text_of(a2, b2)
+                            t = re.sub(r"^& ", "", t)
+                            m1 = re.fullmatch(r'b"((?:[^"\\]|\\.)*)"', t)
+                            m2 = re.fullmatch(r"(\w+) \. key (?:\( \) )?\. as_ref \( \)", t)
+                            m3 = re.fullmatch(r"(\w+) \. to_le_bytes \( \)", t)
+                            m4 = re.fullmatch(r"(?:\w+ :: )*fixed_str_to_bytes :: < (?:\w+ :: )*(\w+) > \( (?:& )?(\w+) \) \?", t)
+                            m5 = re.fullmatch(r"(?:(\w+) :: )*(\w+)", t)
+                            m6 = re.fullmatch(r"(\w+) \. as_ref \( \)|(\w+) \. as_bytes \( \)", t)
+                            m7 = re.fullmatch(r"\[ (\w+) \]", t)
+                            if m1: seeds.append(dict(const=list(m1.group(1).encode())))
+                            elif m2 and m2.group(1) in ftypes: seeds.append(dict(account=m2.group(1)))
+                            elif m3 and m3.group(1) in argn: seeds.append(dict(const=list(idl.zero(argn[m3.group(1)]["type"]))))
+                            elif m4 and m4.group(2) in argn and m4.group(1) in consts.ints: seeds.append(dict(const=[0] * consts.ints[m4.group(1)]))
+                            elif re.fullmatch(r"(?:\w+ :: )*fixed_str_to_bytes :: < (?:\w+ :: )*(\w+) > \( (?:\w+ :: )*(\w+) \) \?", t):
+                                mm4 = re.fullmatch(r"(?:\w+ :: )*fixed_str_to_bytes :: < (?:\w+ :: )*(\w+) > \( (?:\w+ :: )*(\w+) \) \?", t)
+                                n_, c_ = consts.ints.get(mm4.group(1)), consts.strs.get(mm4.group(2))
+                                if n_ is None or c_ is None or len(c_) > n_: raise Unsupported(f"seed expression `{t[:60]}`")
+                                seeds.append(dict(const=list(c_ + bytes(n_ - len(c_)))))
+                            elif m6 and (m6.group(1) or m6.group(2)) in argn:
+                                an = m6.group(1) or m6.group(2)
+                                z = idl.zero(argn[an]["type"])
+                                seeds.append(dict(const=list(b"" if argn[an]["type"] in ("string", "bytes") else z)))
+                            elif m7 and m7.group(1) in argn: seeds.append(dict(const=list(idl.zero(argn[m7.group(1)]["type"]))))
+                            elif m5:
+                                last = m5.group(2)
+                                val = None
+                                if last == "SEED":
+                                    tn = t.split(" :: ")[-2] if " :: " in t else None
+                                    val = consts.seed_of(tn)
+                                else:
+                                    val = consts.bytes.get(last)
+                                if val is None: raise Unsupported(f"seed constant `{t}`")
+                                seeds.append(dict(const=list(val)))
+                            else:
+                                raise Unsupported(f"seed expression `{t[:50]}`")
+                        prog = None
+                        if "seeds :: program" in kv:
+                            pt = kv["seeds :: program"][0][0]
+                            mm = re.fullmatch(r"(\w+) \. key \( \)", pt)
+                            if mm and mm.group(1) in ftypes: prog = dict(account=mm.group(1))
+                            elif re.fullmatch(r"gmsol_store :: ID", pt): prog = dict(b58=idls["store"].address)
+                            else: raise Unsupported(f"seeds::program = {pt}")
+                        acc["pda"] = dict(seeds=seeds, program=prog)
                     accounts.append(acc)
+                # which signer is the recorded owner (owner test)
+                if owner_sig == "?":
+                    owner_sig = None
+                    for sg in signers:
+                        for a2 in accounts:
+                            its = fattrs.get(a2["name"], [])
+                            if any((k == "has_one" and re.sub(r" @ .*$", "", v) == sg) or (k == "seeds" and re.search(rf"\b{sg} \. key", v)) for k, v, _ in its):
+                                owner_sig = sg
+                        if owner_sig: break
+                    if owner_sig is None: raise Unsupported("no signer-tied account found")
                 args = b"".join(idl.zero(x["type"]) for x in ii["args"])
-                specs.append(dict(program=pname, program_id=idl.address, name=name, disc=ii["discriminator"], args=list(args), roles=roles, reachable=pinned, accounts=accounts))
+                specs.append(dict(program=pname, program_id=idl.address, name=name, disc=ii["discriminator"], args=list(args), roles=roles,
+                                  owner=owner_sig, guarded=attr.get((pname, name)) is not None, reachable=pinned, accounts=accounts))
             except Unsupported as e:
-                skipped.append(dict(program=pname, name=name, why=str(e)))
+                skipped.append(dict(program=pname, name=name, why=str(e), guarded=attr.get((pname, name)) is not None))
     text = json.dumps(dict(specs=specs, skipped=skipped), indent=0, sort_keys=True)
     if not os.path.exists(OUT) or open(OUT).read() != text:
         tmp = OUT + f".tmp{os.getpid()}"
@@ -228,4 +415,6 @@ if __name__ == "__main__":
     specs, skipped = main()
     if len(sys.argv) > 1:
         print(len(specs), "specs;", len(skipped), "skipped")
+        import collections
+        print(collections.Counter((s["program"], "guarded" if s["guarded"] else "owner") for s in specs))
         for s in skipped: print("  skip", s["program"], s["name"], "-", s["why"])
